@@ -32,10 +32,6 @@ Proof. vm_compute. reflexivity. Qed.
 Lemma graphs_perm_upto4_wf : forallb wf_graphb graphs_perm_upto4 = true.
 Proof. vm_compute. reflexivity. Qed.
 
-(** the F8 class: at least two vertices, one of them isolated *)
-Definition has_isolated (g : graph) : bool :=
-  (2 <=? length g) && existsb (fun p => match snd p with [] => true | _ => false end) g.
-
 (** * every elimination order gives a valid decomposition of the elimination width (stop-gap
       for the unbounded theorem in TreeDec_elim.v; kept as an independent cross-check of the
       model and of [td_ok]) *)
@@ -127,61 +123,69 @@ Proof.
   - apply heur_ok_spec, (proj1 (forallb_forall _ _) heur_ok_perm_upto4_b g Hg).
 Qed.
 
-(** * acb: optimal and valid unless the graph has >= 2 vertices one of which is isolated (F8);
-      in that class it is never valid *)
-Definition acb_ok (g : graph) : bool :=
-  if has_isolated g
-  then match acb g with Some t => negb (td_ok g t) | None => false end
-  else td_res_ok g (acb g) true.
+(** * acb: valid and optimal on the whole bounded domain (graphs with isolated vertices included;
+      the defect F8 of the code before /repo 96ab4c3 is kept below as [acb_old]) *)
+Definition acb_ok (g : graph) : bool := td_res_ok g (acb g) true.
 Lemma acb_ok_upto5_b : forallb acb_ok graphs_upto5 = true.
 Proof. vm_compute. reflexivity. Qed.
 Lemma acb_ok_perm_upto4_b : forallb acb_ok graphs_perm_upto4 = true.
 Proof. vm_compute. reflexivity. Qed.
 
-Lemma acb_ok_pos g : acb_ok g = true -> has_isolated g = false ->
+Lemma acb_ok_spec g : acb_ok g = true ->
   exists t, tree_decomposition 2 g = Some t /\ td_ok g t = true /\ width t = tw_perm g.
 Proof.
-  unfold acb_ok, td_res_ok. intros H Hi. rewrite Hi in H. cbn [tree_decomposition].
+  unfold acb_ok, td_res_ok. intro H. cbn [tree_decomposition].
   destruct (acb g) as [t|]; [|discriminate].
   apply andb_true_iff in H. destruct H as [H1 H2]. apply Nat.eqb_eq in H2. eauto.
 Qed.
-Lemma acb_ok_neg g : acb_ok g = true -> has_isolated g = true ->
-  exists t, tree_decomposition 2 g = Some t /\ td_ok g t = false.
-Proof.
-  unfold acb_ok. intros H Hi. rewrite Hi in H. cbn [tree_decomposition].
-  destruct (acb g) as [t|]; [|discriminate]. exists t. split; auto.
-  now apply negb_true_iff in H.
-Qed.
 
 Theorem acb_optimal_upto5 :
-  forall g, In g graphs_upto5 \/ In g graphs_perm_upto4 -> has_isolated g = false ->
+  forall g, In g graphs_upto5 \/ In g graphs_perm_upto4 ->
     exists t, tree_decomposition 2 g = Some t /\ td_ok g t = true /\ width t = tw_perm g.
 Proof.
-  intros g [Hg|Hg] Hi.
-  - apply acb_ok_pos; auto. apply (proj1 (forallb_forall _ _) acb_ok_upto5_b g Hg).
-  - apply acb_ok_pos; auto. apply (proj1 (forallb_forall _ _) acb_ok_perm_upto4_b g Hg).
+  intros g [Hg|Hg].
+  - apply acb_ok_spec, (proj1 (forallb_forall _ _) acb_ok_upto5_b g Hg).
+  - apply acb_ok_spec, (proj1 (forallb_forall _ _) acb_ok_perm_upto4_b g Hg).
 Qed.
 
-(** F8, as a class: on every graph of the domain with >= 2 vertices and an isolated vertex the
-    faithful model of acb returns something that is not a valid decomposition *)
-Theorem acb_isolated_invalid_upto5 :
-  forall g, In g graphs_upto5 \/ In g graphs_perm_upto4 -> has_isolated g = true ->
-    exists t, tree_decomposition 2 g = Some t /\ td_ok g t = false.
-Proof.
-  intros g [Hg|Hg] Hi.
-  - apply acb_ok_neg; auto. apply (proj1 (forallb_forall _ _) acb_ok_upto5_b g Hg).
-  - apply acb_ok_neg; auto. apply (proj1 (forallb_forall _ _) acb_ok_perm_upto4_b g Hg).
-Qed.
-
-(** F8, the witness of DESIGN.md section 8: the graph {0-1, 2} *)
+(** ** historical: acb before /repo 96ab4c3 (F8).  [acb_old] is NOT the model of the current code;
+       it returned from inside the component loop as soon as a component was a single vertex. *)
+Fixpoint acb_old_loop (g : graph) (comps : list (list nat)) (comptrees : list rtree)
+  : option (td + list rtree) :=
+  match comps with
+  | [] => Some (inr comptrees)
+  | c :: comps' =>
+    let cg := restrict g c in
+    match min_fill cg with
+    | None => None
+    | Some (ub, _) =>
+      if ub =? 0 then Some (inl ([sort_set (gverts cg)], []))
+      else match acb_try_k cg ub 1 with
+           | ATree t => acb_old_loop g comps' (comptrees ++ [t])
+           | _ => None
+           end
+    end
+  end.
+Definition acb_old (g : graph) : option td :=
+  match connected_components g [] with
+  | None => None
+  | Some comps =>
+    match acb_old_loop g comps [] with
+    | None => None
+    | Some (inl t) => Some t
+    | Some (inr [t]) => unroot t (Some ([], []))
+    | Some (inr ts) => unroot (RNode [] ts) (Some ([], []))
+    end
+  end.
 Definition f8_graph : graph := [(0, [1]); (1, [0]); (2, [])].
-Theorem acb_isolated_refuted :
-  exists g t, wf_graphb g = true /\ tree_decomposition 2 g = Some t /\ t = ([[2]], []) /\
-              td_ok g t = false /\ ~ (exists b, In b (fst t) /\ In 0 b).
-Proof.
-  exists f8_graph, ([[2]], []). repeat split; try (vm_compute; reflexivity).
-  intros [b [Hb H0]]. cbn in Hb. destruct Hb as [<-|[]]. cbn in H0. destruct H0 as [H0|[]]. discriminate.
-Qed.
+Lemma acb_old_isolated_refuted :
+  wf_graphb f8_graph = true /\ acb_old f8_graph = Some ([[2]], []) /\ td_ok f8_graph ([[2]], []) = false.
+Proof. vm_compute. auto. Qed.
+(** the repaired code on the same graph *)
+Example acb_f8_graph_now :
+  acb f8_graph = Some ([[]; [0; 1]; [2]], [(0, 1); (0, 2)]) /\
+  td_ok f8_graph ([[]; [0; 1]; [2]], [(0, 1); (0, 2)]) = true.
+Proof. vm_compute. auto. Qed.
 
 (** the hypotheses are satisfiable by non-trivial values *)
 Definition graph_eq_dec : forall a b : graph, {a = b} + {a <> b}.
@@ -190,7 +194,5 @@ Lemma in_dec_true g l : (if in_dec graph_eq_dec g l then true else false) = true
 Proof. destruct (in_dec graph_eq_dec g l); [auto|discriminate]. Qed.
 Example c5_in_domain : In [(0,[1;4]);(1,[0;2]);(2,[1;3]);(3,[2;4]);(4,[0;3])] graphs_upto5.
 Proof. apply in_dec_true. vm_compute. reflexivity. Qed.
-Example c5_no_isolated : has_isolated [(0,[1;4]);(1,[0;2]);(2,[1;3]);(3,[2;4]);(4,[0;3])] = false.
-Proof. reflexivity. Qed.
-Example f8_in_domain : In f8_graph graphs_upto5 /\ has_isolated f8_graph = true.
-Proof. split; [apply in_dec_true; vm_compute; reflexivity | reflexivity]. Qed.
+Example f8_in_domain : In f8_graph graphs_upto5.
+Proof. apply in_dec_true. vm_compute. reflexivity. Qed.
